@@ -261,9 +261,9 @@ PO6_AUDIT = {
         'callers pass codes yielded by self.ranks.qgrams(self.q, ..), which are < 2^(q*width) = address.len() - 1 (CS-1)',
     'QGramIndex::qgram_matches|overflow-add:usize|1,arg2':
         'qgram < 2^(q*width) <= usize::MAX / 2',
-    'QGramIndex::qgram_matches|index:|index(arg1.address,Add(1,arg2).0)<std::vec::Vec<usize>>':
+    'QGramIndex::qgram_matches|index:|index(arg1.address,P[1 + arg2].0)<std::vec::Vec<usize>>':
         'address has code space + 1 entries',
-    'QGramIndex::qgram_matches|index:|index(arg1.pos,Range::Range{Index<I>>::index(arg1.address,arg2),Index<I>>::index(arg1.address,Add(1,arg2).0)})<std::vec::Vec<usize>>':
+    'QGramIndex::qgram_matches|index:|index(arg1.pos,Range::Range{Index<I>>::index(arg1.address,arg2),Index<I>>::index(arg1.address,P[1 + arg2].0)})<std::vec::Vec<usize>>':
         'address is a prefix sum whose last entry is pos.len(): address[c] <= address[c+1] <= pos.len()',
     'QGramIndex::matches|overflow-add:usize|arg1.q,x0':
         'text / pattern positions plus q stay far below usize::MAX',
@@ -277,7 +277,7 @@ PO6_AUDIT = {
         'positions plus q stay far below usize::MAX',
     'QGramIndex::exact_matches|overflow-sub:usize|OccupiedEntry::get_mut(x0).pattern.stop,arg1.q':
         'pattern.stop = i + q >= q',
-    'QGramIndex::exact_matches|overflow-add:usize|1,Sub(OccupiedEntry::get_mut(x0).pattern.stop,arg1.q).0':
+    'QGramIndex::exact_matches|overflow-add:usize|1,P[OccupiedEntry::get_mut(x0).pattern.stop + -1*arg1.q].0':
         'stop - q + 1 <= stop',
 }
 
